@@ -214,7 +214,9 @@ var c13Open = core.Mon(c13, "unterminated", func(w *core.W, c *ParseCase) {
 })
 
 var textPool = []string{"a", "b", " ", "'", "\"", "\\", "\n", "\r", "\t", "\b", "\f", "\v", "\x00", "\x01", "\x7f", "\u0085", "\u2028", "\u2029", "\u00e9", "\u00ff", "\u0100", "\u4e2d", "\U0001F600", "\xff", "\xc3", "\xe2\x80", "\x80", "x41", "u0041", "n", "0", "1", "$", "\u00a0", "\ufeff", "\uffff", "\ud7ff",
-	"${name}", "${a}", "${$who}", "${", "}", "{", "{{name}}", "%s", "%d", "$1", "\\d", "\\\\d", "\\u0041", "^", "(", "[a", "#{b}", "{0}", "$who", "<b>", "&amp;"}
+	"${name}", "${a}", "${$who}", "${", "}", "{", "{{name}}", "%s", "%d", "$1", "\\d", "\\\\d", "\\u0041", "^", "(", "[a", "#{b}", "{0}", "$who", "<b>", "&amp;",
+	// texts that spell something of another kind: keywords, numbers, timestamps, arrays (a string literal denotes its text)
+	"true", "false", "null", "this", "ctx", "typeof", "NaN", "Infinity", "-0", "1.5", "1e3", "0x10", "007", "2024-02-29T12:30:00Z", "2024-02-29T12:30:00.5+09:00", "0001-01-01T00:00:00Z", "2024-02-29", "12:30:00", "[1]", "name", "$who", "fid", "abs", "now"}
 
 func randText(r *rand.Rand, maxLen int) []byte {
 	n := r.Intn(maxLen + 1)
